@@ -40,6 +40,34 @@ class FaultyStream(hx.MemStream):
             raise OSError('injected write fault')
         return hx.MemStream.write(self, b)
 
+    # A buffered file reports a full disk only when the buffer is flushed: at
+    # seek() or flush() after the last write.  (read() and close() belong to
+    # the final copy, whose own failure is outside the property.)
+    late = None
+
+    def _late(self, where):
+        if self.late == where:
+            raise OSError('injected fault at ' + where)
+
+    def seek(self, pos, whence=0):
+        self._late('seek')
+        return hx.MemStream.seek(self, pos, whence)
+
+    def flush(self):
+        self._late('flush')
+
+    def read(self, n=-1):
+        self._late('read')
+        return hx.MemStream.read(self, n)
+
+    def close(self):
+        self._late('close')
+
+    def __exit__(self, *a):
+        if a[0] is None:
+            self.close()
+        return False
+
 
 class BadWriter(lua.LuaEchoWriter):
     def to_lines(self):
@@ -98,6 +126,8 @@ def scenario(x, p):
             # writer does instead must be as careful with the destination
             raise OSError('no usable temporary directory')
         s = FaultyStream(k)
+        if fault in ('seek', 'flush', 'read', 'close'):
+            s.late = fault
         state['temp'] = s
         return s
     rows = [bytearray((3 * r + c) % 256 for c in range(W_ * 4))
@@ -295,9 +325,10 @@ HARNESSES = [
     Harness('scenario', scenario,
             quick=[dict(Q, fmt='.p8', kmax=24, faults=[
                 'none', 'write', 'luawriter', 'reparse', 'relex',
-                'section']),
+                'section', 'seek', 'flush']),
                    dict(Q, fmt='.p8.png', kmax=3, faults=[
-                       'none', 'write', 'luawriter', 'section', 'png'])],
+                       'none', 'write', 'luawriter', 'section', 'png',
+                       'seek'])],
             thorough=[dict(Q, fmt='.p8', kmax=460, faults=[
                 'none', 'write', 'luawriter', 'reparse', 'relex', 'section'],
                 _budget=3000),
